@@ -163,7 +163,18 @@ func (h Hash) Int(i int) Hash {
 func HashStr(s string) Hash { return fnvOff.Str(s) }
 
 // Digest is a fast structural hash (no string building) used at every yield.
-func Digest(v interface{}) Hash { digestDepth = 0; return digest(fnvOff, v) }
+func Digest(v interface{}) Hash { digestDepth = 0; digestSpare = false; return digest(fnvOff, v) }
+
+// DigestCap also hashes the spare capacity of every list (C17 S2).
+func DigestCap(v interface{}) Hash {
+	digestDepth = 0
+	digestSpare = true
+	h := digest(fnvOff, v)
+	digestSpare = false
+	return h
+}
+
+var digestSpare bool
 
 var digestDepth int
 
@@ -186,6 +197,13 @@ func digest(h Hash, v interface{}) Hash {
 		h = h.Int(3).Int(len(x))
 		for _, e := range x {
 			h = digest(h, e)
+		}
+		if digestSpare && cap(x) > len(x) {
+			// the spare capacity of the backing array belongs to the value's owner as well:
+			// an append through an alias writes there without changing len
+			for _, e := range x[len(x):cap(x)] {
+				h = digest(h, e)
+			}
 		}
 		return h
 	case string:
